@@ -58,13 +58,13 @@ def cfg : Cfg :=
 def ccfgFront : Conc.CCfg :=
   { nAct := Gen.C16.frontActivate.length, nDeact := Gen.C16.frontDeactivate.length,
     storeReloads := Gen.C16.storeReloads, storeGuard := Gen.C16.storeGuard,
-    delGuard := Gen.C16.delSwallows }
+    delGuard := Gen.C16.delSwallows, ownerOnly := Gen.C16.cacheOwnerOnly }
 
 /-- … and for the platform object's `_cache` -/
 def ccfgProc : Conc.CCfg :=
   { nAct := Gen.C16.procActivate.length, nDeact := Gen.C16.procDeactivate.length,
     storeReloads := Gen.C16.storeReloads, storeGuard := Gen.C16.storeGuard,
-    delGuard := Gen.C16.delSwallows }
+    delGuard := Gen.C16.delSwallows, ownerOnly := Gen.C16.cacheOwnerOnly }
 
 /- ------------------------------------------------------------------ two cache levels -/
 
@@ -91,6 +91,7 @@ def ccfg2 : Conc2.CCfg2 :=
   { actSeq := expandOrder Gen.C16.actOrder Gen.C16.procActivate.length
     deactSeq := expandOrder Gen.C16.deactOrder Gen.C16.procDeactivate.length
     delGuard := Gen.C16.delSwallows
+    ownerOnly := Gen.C16.cacheOwnerOnly
     fsrc := fun f => (fsrcOpt f).getD 0
     pmemo := fun g => match srcNames[g]? with
       | some nm => Gen.C16.memoProc.contains nm
